@@ -30,6 +30,9 @@ const NEG_INF: i32 = -POS_INF;
 */
 const KILLER_MOVE_SCORE: i32 = 25;
 
+// how many nodes the capture search visits between two looks at the clock
+const QUIESCE_CLOCK_INTERVAL: u32 = 1024;
+
 #[cfg(not(feature = "verif_loom"))]
 type BoardSender = std::sync::mpsc::Sender<BoardState>;
 #[cfg(feature = "verif_loom")]
@@ -40,12 +43,23 @@ type BoardSender = crate::sched::mpsc::Sender<BoardState>;
     find a "quite" position
 */
 fn quiesce(
+    start: Instant,
+    time_to_move_ms: u128,
     board: &BoardState,
     mut alpha: i32,
     beta: i32,
     search_info: &mut Search,
     zobrist_hasher: &ZobristHasher,
 ) -> i32 {
+    // with many pieces in contact a single capture search can run for a very long time,
+    // look at the clock every now and then so we still stop on time
+    // once we are out of time the node count stops moving, so every node on the way out exits here as well
+    if search_info.nodes_searched % QUIESCE_CLOCK_INTERVAL == 0
+        && out_of_time(start, time_to_move_ms)
+    {
+        return NEG_INF;
+    }
+
     search_info.node_searched();
     let stand_pat = get_evaluation(board);
     if stand_pat >= beta {
@@ -58,7 +72,15 @@ fn quiesce(
     let mut moves = generate_moves(board, MoveGenerationMode::CapturesOnly, zobrist_hasher);
     moves.sort_unstable_by_key(|k| Reverse(k.order_heuristic));
     for mov in moves {
-        let score = -quiesce(&mov, -beta, -alpha, search_info, zobrist_hasher);
+        let score = -quiesce(
+            start,
+            time_to_move_ms,
+            &mov,
+            -beta,
+            -alpha,
+            search_info,
+            zobrist_hasher,
+        );
         if score >= beta {
             return beta;
         }
@@ -107,7 +129,15 @@ fn alpha_beta_search(
             depth += 1;
         } else {
             draw_table.remove_board_from_draw_table(board);
-            return quiesce(board, alpha, beta, search_info, zobrist_hasher);
+            return quiesce(
+                start,
+                time_to_move_ms,
+                board,
+                alpha,
+                beta,
+                search_info,
+                zobrist_hasher,
+            );
         }
     }
 
